@@ -23,6 +23,12 @@ CHECKS = {
                 tech="TLA+ model checking (TLC) of Pipeline.tla + spec->code replay + TLC evaluation of GraphProps!Skeleton on observed states"),
     "C03": dict(engine="pipeline", ref="4 C03", text=PIPE_TEXT, note=PIPE_NOTE,
                 tech="TLA+ model checking (TLC) of Pipeline.tla + spec->code replay + TLC evaluation of GraphProps!ModesRespected on observed states"),
+    "C04": dict(engine="pipeline", ref="4 C04", text=("The terminal state of every scenario of Pipeline.tla (enumerated by TLC, or the specification run on random graphs via PipelineFrom.tla) carries a symbolic parameter term per tensor; the harness resolves each term against on-grid statistics and constants, TLC (QuantMathExt.tla, exact rationals) computes the expected zero points and scales and judges the bytes the implementation stored; annotations are compared with TLC's values and TLC (Observed.tla) evaluates the relational clauses on the observed graph. ") + "C04: dtype, lengths, quantised dimension (table from the TFLite spec), zero point (exact; either neighbour on an exact tie TLC detects), scale (1e-6 relative), bias = input x weight scale, fixed ranges, ParamRelations (same-as-input / concatenation sharing).", note=PIPE_NOTE + " Statistics and constants on a dyadic grid; numpy trusted for per-channel min/max.",
+                tech="TLA+ model checking (TLC): Pipeline.tla symbolic parameters + exact-rational reference QuantMathExt.tla + spec->code comparison of annotations"),
+    "C05": dict(engine="pipeline", ref="4 C05", text=("The terminal state of every scenario of Pipeline.tla (enumerated by TLC, or the specification run on random graphs via PipelineFrom.tla) carries a symbolic parameter term per tensor; the harness resolves each term against on-grid statistics and constants, TLC (QuantMathExt.tla, exact rationals) computes the expected zero points and scales and judges the bytes the implementation stored; annotations are compared with TLC's values and TLC (Observed.tla) evaluates the relational clauses on the observed graph. ") + "C05: for every rewritten constant TLC checks byte length, int4 nibble order and padding, and the element-wise decode bound (step/2 symmetric, step asymmetric, + step/4096 slack) on the stored bytes; bias codes against round_half_even(b/(s_in*s_w)); float16 constants byte-exact.", note=PIPE_NOTE + " On-grid constants (float16 cast exact); bias codes above 2^20 get float32 slack.",
+                tech="TLA+ model checking (TLC): exact-rational decode of observed bytes in QuantMathExt.tla"),
+    "C15": dict(engine="pipeline", ref="4 C15", text=("The terminal state of every scenario of Pipeline.tla (enumerated by TLC, or the specification run on random graphs via PipelineFrom.tla) carries a symbolic parameter term per tensor; the harness resolves each term against on-grid statistics and constants, TLC (QuantMathExt.tla, exact rationals) computes the expected zero points and scales and judges the bytes the implementation stored; annotations are compared with TLC's values and TLC (Observed.tla) evaluates the relational clauses on the observed graph. ") + "C15: scenarios in which a constant tensor has several consumers or two tensors (same or different subgraphs) share a buffer, under every assignment of modes to the sharers: either quantize() raises (predicted raise site) or every referencing tensor's dtype/parameters agree with the stored bytes (decode per referencing tensor) and SharedConstOK holds on the observed graph.", note=PIPE_NOTE,
+                tech="TLA+ model checking (TLC) of Pipeline.tla (SharedConstOK, buffer-sharing check) + spec->code replay + exact-rational decode of shared buffers"),
     "C08": dict(engine="pipeline", ref="4 C08", text="TLC explores Pipeline.tla under the mode map each of the 5 shipped recipes induces (read from the implementation's resolution of the unchanged JSON) and reports every may-raise terminal state; every enumerated graph and seeded random larger graphs are then run through the real API with the unchanged JSON recipe and real calibrate(); the observed return/raise decides.",
                 note=PIPE_NOTE + " Known finding F20.", tech="TLA+ model checking (TLC) of Pipeline.tla (NeverRaises) + spec->code replay with the shipped recipe files"),
     "C11": dict(engine="recipe", ref="4 C11", text="Recipe.tla is the documented resolution model; TLC checks its structural invariants and action properties on every reachable store and emits every (store, letter) transition with the predicted accept/refuse, export and resolution table; each transition is replayed on a real RecipeManager and compared at every (operator, scope) pair; longer histories by TLC simulation.",
@@ -43,6 +49,9 @@ CHECKS = {
     "C16": dict(engine="serialize", ref="4 C16", text="Serialize.tla models the two-pass layout of _serialize_large_model (header of the final pass may shrink when a scalar field becomes default-valued); TLC checks Aligned/InBounds/Disjoint/PointsAtData; quantized models and synthetic layouts are serialised by both paths through the public quantize() (hook lowers the threshold) and the raw (offset,size,total) read with Model.GetRootAs are judged by TLC (ObservedSerialize.tla) together with byte-selection, field-equality and interpreter-equality observations.",
                 note="Needs hook AI_EDGE_QUANTIZER_VERIF_LARGE_MODEL_THRESHOLD. 3-4 buffers, sizes {none,0,1,15,16,17,33}, 32 header residues at design level; 224-640 synthetic layouts + random quantized models observed.",
                 tech="TLA+ model checking (TLC) of Serialize.tla + TLC evaluation of layout invariants on observed (offset,size) tables"),
+    "C18": dict(engine="validate", ref="4 C18", text="Validate.tla models the partition of the per-tensor comparison into inputs/outputs/constants/intermediates by successive pops with their KeyError sites; TLC checks PartitionOK and ReturnsForQuantizedPair over all name-set configurations; validate()/compare_model are run on generated models against their quantized versions and against themselves (both metrics, every signature); TLC (ObservedValidate.tla) judges the observed groups, values are compared with the metric computed from the harness's own two interpreter runs, metric laws on integer vectors.",
+                note="4 names at design level; 160 (quick) / 1500 (thorough) observed comparisons. Value equality is an interpreter observation (1e-5 relative).",
+                tech="TLA+ model checking (TLC) of Validate.tla + TLC evaluation of the partition on observed results"),
     "C17": dict(engine="quantmath", ref="4 C17", text="QuantMath.tla is an exact-rational reference of the quantisation arithmetic written from the TFLite spec; TLC checks the laws of C17 on it for every grid vector and emits expected values which the library's results must match (zero point exactly, either neighbour on an exact tie; scale within 3e-7); integer results observed from the library (all codes under parameters exactly as the library produces them, ascending inputs, per-channel tensors) are judged by TLC (ObservedMath.tla).",
                 note="Grids: ranges a/8 x b/8 (a,b <= 16 quick / 48 thorough), one-sided, tiny; bits 4/8/16; both symmetries; all codes for 4/8 bit. numpy float arithmetic trusted in the float-vs-rational comparison.",
                 tech="TLA+ model checking (TLC) of an exact-rational reference + expected-value replay + TLC evaluation of integer laws on observed results"),
@@ -51,7 +60,7 @@ CHECKS = {
 NA = {
     "C07": "numeric closeness of chained LiteRT integer kernels to float kernels is not a property of any state the quantizer has; TLC has no model of those kernels and an empirical tolerance would either miss errors or raise false alarms (DESIGN 4 C07). Its discrete preconditions are decided under C03/C04/C05/C13.",
 }
-PLANNED = ["C04", "C05", "C06", "C13", "C15", "C18", "C19"]
+PLANNED = ["C06", "C13", "C19"]
 
 
 def main():
@@ -81,6 +90,7 @@ def main():
            "kind_free_text": "TLA+ spec of calibrate() over resumed sessions (symbolic fold sequences); behaviour replay"},
           {"name": "api", "path": "/verif/spec/Api.tla", "serves_properties": ["C14"], "kind_free_text": "TLA+ spec of call histories over caller-owned objects; transition replay"},
           {"name": "serialize", "path": "/verif/spec/Serialize.tla", "serves_properties": ["C16"], "kind_free_text": "TLA+ spec of the two-pass external-buffer layout; ObservedSerialize.tla"},
+          {"name": "validate", "path": "/verif/spec/Validate.tla", "serves_properties": ["C18"], "kind_free_text": "TLA+ spec of the comparison-result partition; ObservedValidate.tla"},
           {"name": "quantmath", "path": "/verif/spec/QuantMath.tla", "serves_properties": [p for p, c in CHECKS.items() if c["engine"] == "quantmath"],
            "kind_free_text": "exact-rational TLA+ reference of the quantisation arithmetic; expected-value replay; ObservedMath.tla"},
       ],
